@@ -7,7 +7,7 @@ use std::time::Duration;
 
 use refmodel::rpush::{Expect, Kind, MRule, Model, KINDS};
 use ruma_common::push::{
-    insert_and_move_rule, Action, AnyPushRuleRef, NewConditionalPushRule, NewPatternedPushRule,
+    insert_and_move_rule, Action, PushCondition, AnyPushRuleRef, NewConditionalPushRule, NewPatternedPushRule,
     NewPushRule, NewSimplePushRule, PatternedPushRule, PatternedPushRuleInit, RuleKind, Ruleset,
     Tweak,
 };
@@ -81,11 +81,17 @@ fn snapshot(rs: &Ruleset) -> [Vec<MRule>; 5] {
             AnyPushRuleRef::Underride(_) => Kind::Underride,
             _ => continue,
         };
+        let extra = match r {
+            AnyPushRuleRef::Override(c) | AnyPushRuleRef::Underride(c) => serde_json::to_string(&c.conditions).unwrap_or_default(),
+            AnyPushRuleRef::Content(p) => p.pattern.clone(),
+            _ => String::new(),
+        };
         out[k as usize].push(MRule {
             id: r.rule_id().to_string(),
             enabled: r.enabled(),
             default: r.is_server_default(),
             actions: actions_key(r.actions()),
+            extra,
         });
     }
     out
@@ -95,11 +101,29 @@ fn show(l: &[MRule]) -> Vec<String> {
     l.iter().map(|r| format!("{}{}", r.id, if r.enabled { "" } else { "(off)" })).collect()
 }
 
+fn conditions(tag: u8) -> Vec<PushCondition> {
+    match tag {
+        0 => vec![],
+        n => vec![PushCondition::EventMatch { key: "type".into(), pattern: format!("t{n}") }],
+    }
+}
+fn pattern(tag: u8) -> String {
+    format!("pat{tag}*")
+}
+/// The payload besides the actions, as the model records it.
+fn extra_key(kind: Kind, tag: u8) -> String {
+    match kind {
+        Kind::Override | Kind::Underride => serde_json::to_string(&conditions(tag)).unwrap_or_default(),
+        Kind::Content => pattern(tag),
+        _ => String::new(),
+    }
+}
+
 fn new_rule(kind: Kind, id: &str, tag: u8) -> Option<NewPushRule> {
     Some(match kind {
-        Kind::Override => NewPushRule::Override(NewConditionalPushRule::new(id.to_string(), vec![], actions(tag))),
-        Kind::Underride => NewPushRule::Underride(NewConditionalPushRule::new(id.to_string(), vec![], actions(tag))),
-        Kind::Content => NewPushRule::Content(NewPatternedPushRule::new(id.to_string(), "pat*".to_string(), actions(tag))),
+        Kind::Override => NewPushRule::Override(NewConditionalPushRule::new(id.to_string(), conditions(tag), actions(tag))),
+        Kind::Underride => NewPushRule::Underride(NewConditionalPushRule::new(id.to_string(), conditions(tag), actions(tag))),
+        Kind::Content => NewPushRule::Content(NewPatternedPushRule::new(id.to_string(), pattern(tag), actions(tag))),
         Kind::Room => {
             let rid: OwnedRoomId = id.try_into().ok()?;
             NewPushRule::Room(NewSimplePushRule::new(rid, actions(tag)))
@@ -157,7 +181,7 @@ fn apply_and_check(real: &mut Ruleset, model: &mut Model, op: &Op) -> Result<OpR
                 rel.push_str(model.relation(*kind, id, a));
             }
             tags.push(format!("insert.{}.{pos}{rel}", if exists { "existing" } else { "new" }));
-            (model.insert(*kind, id, &actions_key(&actions(*tag)), after.as_deref(), before.as_deref()), *kind, "insert")
+            (model.insert(*kind, id, &actions_key(&actions(*tag)), &extra_key(*kind, *tag), after.as_deref(), before.as_deref()), *kind, "insert")
         }
         Op::FreeInsert { id, tag, after, before } => {
             tags.push("free_insert".to_string());
@@ -165,7 +189,7 @@ fn apply_and_check(real: &mut Ruleset, model: &mut Model, op: &Op) -> Result<OpR
             let e = if id.starts_with('.') || after.as_deref().is_some_and(|a| a.starts_with('.')) || before.as_deref().is_some_and(|a| a.starts_with('.')) {
                 Expect::Either("free function with dot-prefixed ids: validation is the caller's job")
             } else {
-                model.insert(Kind::Content, id, &actions_key(&actions(*tag)), after.as_deref(), before.as_deref())
+                model.insert(Kind::Content, id, &actions_key(&actions(*tag)), &extra_key(Kind::Content, *tag), after.as_deref(), before.as_deref())
             };
             (e, Kind::Content, "free_insert")
         }
@@ -202,7 +226,7 @@ fn apply_and_check(real: &mut Ruleset, model: &mut Model, op: &Op) -> Result<OpR
                 default: false,
                 enabled: real.content.get(id.as_str()).map(|r| r.enabled).unwrap_or(true),
                 rule_id: id.clone(),
-                pattern: "pat*".to_string(),
+                pattern: pattern(*tag),
             }
             .into();
             insert_and_move_rule(&mut real.content, rule, 0, after.as_deref(), before.as_deref()).map_err(|e| e.to_string())
